@@ -86,6 +86,27 @@ def oracle(res, case, sk, ops, impl, live, tmp, keypath):
                 res.violate("C15:wrong-path", "the ValidationError does not name the full path of the offending field", where)
             elif not path_resolves(sk, p):
                 res.violate("C15:unresolvable-path", "the reported path does not resolve in the schema (missing item index / key?)", where)
+            else:
+                sf = H.find_sf(sk, key)
+                val = op["value"].get("py") if op["value"].get("a") == "val" else None
+                if sf["s"] == "cfglist" and isinstance(val, list) and p.startswith(key + "[") and live is not None:
+                    # which item is the offending one: load each item map on its own into a fresh item configuration
+                    item = live[2].types.get(id(sf))
+                    first_bad = None
+                    if item is not None:
+                        for i, t in enumerate(val):
+                            if not isinstance(t, dict):
+                                first_bad = i
+                                break
+                            try:
+                                ic = item() if isinstance(item, type) else item()
+                                ic.load_tree(copy.deepcopy(t))
+                            except Exception:  # noqa
+                                first_bad = i
+                                break
+                    got_idx = p[len(key) + 1:].split("]")[0]
+                    if first_bad is not None and got_idx.isdigit() and int(got_idx) != first_bad:
+                        res.violate("C15:wrong-path:item-index", "the ValidationError names item %s, the offending item is %d" % (got_idx, first_bad), where)
         elif op["op"] == "load_tree":
             if out["err"] == "AttributeError":
                 continue            # unknown key on a non-dynamic configuration
